@@ -1,6 +1,8 @@
 (* Correspondence cases for C14: the harness writes (input, observed implementation output);
    [mismatches14] returns the indices where the model disagrees. *)
 From KV Require Export Yaml.Fns Yaml.FieldSpec.
+(* not re-exported: Corr.C14 is imported by other properties' files for oclass_eqb / mism_from *)
+From KV Require Import Yaml.Elems Yaml.NodeApi Yaml.Annot.
 
 Inductive op14 :=
 | OLookup
@@ -11,11 +13,46 @@ Inductive op14 :=
 | OPutScalar (v : node)
 | OFieldSpec (fs : fieldspec) (ck : option kind) (ct : tag) (sv : setval14)
 | OFsSlice (l : list fieldspec) (ck : option kind) (ct : tag) (sv : setval14)
+(* filters applied to the node Lookup(path) returns:  rn.Pipe(Lookup(path...), F) *)
+| OElemMatch (keys values : list string) (any : bool) (create : option node)
+| OElemSet (keys values : list string) (element : option node)
+| OElemAppend (els : list node)
+| OFieldMatch (name : string) (value : option string) (create : option node)
+| OFieldClear (name : string) (if_empty : bool)
+| OTeeSet (name : string) (v : node)          (* Tee(SetField(name, v)) *)
+(* kfns.go, applied to the document *)
+| OSetLabel (k v : string)
+| OSetAnnotation (k v : string)
+| OSetK8sMeta (k v : string)
+(* readers, applied to the node Lookup(path) returns (nothing found: observation ONotFound) *)
+| OFields | OVisitFields | OElements | OElementValues (key : string) | OMapFieldText (name : string)
+| OField (name : string)
+(* readers applied to the document *)
+| OGetFieldValue (path : string) | OGetString (path : string) | OGetSlice (path : string)
+(* readers applied to a hand-built node (kind + arbitrary Content) *)
+| ORawField (k : rawkind) (c : list node) (name : string)
+| ORawMapFieldValue (k : rawkind) (c : list node) (name : string)
+| ORawFields (k : rawkind) (c : list node)
+(* kyaml/utils: PathSplitter(path, "/") as used by fieldspec.Filter (Yaml/FieldSpec.v), PathSplitter(path, d) and
+   SmarterPathSplitter(path, d) for a one-byte delimiter (Yaml/Match.v) *)
+| OPathSplit (path : string)
+| OPathSplitC (d : ascii) (path : string)
+| OSmartSplit (d : ascii) (path : string)
 (* Filter.SetValue used by the harness (a fresh value node per invocation) *)
 with setval14 :=
 | SVScalar (v : node)                 (* FieldSetter{Value: v} *)
 | SVEntry (name : string) (v : node)  (* FieldSetter{Name: name, Value: v} *)
 | SVNone.                             (* records the node, changes nothing *)
+
+(* what a reader returned *)
+Inductive obs14 :=
+| ObNone
+| ObNotFound
+| ObStrs (l : list string)
+| ObStr (s : string)
+| ObPairs (l : list (string * option node))
+| ObNodes (l : list node)
+| ObVal (g : gval).
 
 Record case14 := mk14 {
   c_op : op14;
@@ -24,7 +61,9 @@ Record case14 := mk14 {
   c_class : oclass;            (* observed outcome class *)
   c_after : node;              (* observed document afterwards (meaningful when class = COk) *)
   c_found : option node;       (* observed returned node *)
-  c_nonstr : list string       (* the scalar texts of this case for which yaml.IsValueNonString is true *)
+  c_nonstr : list string;      (* the scalar texts of this case for which yaml.IsValueNonString is true *)
+  c_obs : obs14;               (* observed result of a reader *)
+  c_floatok : list string      (* the scalar texts of this case that strconv.ParseFloat accepts *)
 }.
 
 Definition oclass_eqb (a b : oclass) : bool :=
@@ -57,46 +96,133 @@ Definition sv_fn (nonstr : string -> bool) (sv : setval14) : node -> res node :=
   | SVNone => fun x => Ok x
   end.
 
-(* model outcome: document afterwards and the node the pipe returned *)
-Definition run14 (c : case14) : res (node * option node) :=
+(* ---------- comparison of observations ---------- *)
+Fixpoint strs_eqb (a b : list string) : bool :=
+  match a, b with
+  | [], [] => true
+  | x :: a', y :: b' => String.eqb x y && strs_eqb a' b'
+  | _, _ => false
+  end.
+
+Fixpoint nodes_eqb (a b : list node) : bool :=
+  match a, b with
+  | [], [] => true
+  | x :: a', y :: b' => node_eqb x y && nodes_eqb a' b'
+  | _, _ => false
+  end.
+
+Fixpoint pairs_eqb (a b : list (string * option node)) : bool :=
+  match a, b with
+  | [], [] => true
+  | (k, x) :: a', (k', y) :: b' => String.eqb k k' && opt_node_eqb x y && pairs_eqb a' b'
+  | _, _ => false
+  end.
+
+Definition gval_eqb (a b : gval) : bool :=
+  match a, b with
+  | GMap, GMap | GSlice, GSlice => true
+  | GStr x, GStr y => String.eqb x y
+  | GFloat _, GFloat _ => true     (* the float64 itself is not compared (strconv.ParseFloat is external) *)
+  | GInt s n, GInt s' n' => Bool.eqb (s && negb (n =? 0)%N) (s' && negb (n' =? 0)%N) && (n =? n')%N
+  | GBool x, GBool y => Bool.eqb x y
+  | _, _ => false
+  end.
+
+Definition obs_eqb (a b : obs14) : bool :=
+  match a, b with
+  | ObNone, ObNone | ObNotFound, ObNotFound => true
+  | ObStrs x, ObStrs y => strs_eqb x y
+  | ObStr x, ObStr y => String.eqb x y
+  | ObPairs x, ObPairs y => pairs_eqb x y
+  | ObNodes x, ObNodes y => nodes_eqb x y
+  | ObVal x, ObVal y => gval_eqb x y
+  | _, _ => false
+  end.
+
+Definition flat_found {A} (o : option (option A)) : option A :=
+  match o with Some (Some x) => Some x | _ => None end.
+
+(* a reader applied to the node Lookup(path) returns *)
+Definition read_at (ps : list part) (d : node) (f : node -> res obs14) : res (node * option node * obs14) :=
+  do r <- lookup ps d;
+  match r with
+  | None => Ok (d, None, ObNotFound)
+  | Some x => do o <- f x; Ok (d, None, o)
+  end.
+
+(* model outcome: document afterwards, the node the pipe returned, what a reader returned *)
+Definition run14 (c : case14) : res (node * option node * obs14) :=
   let nonstr := fun s => str_in s (c_nonstr c) in
+  let floatok := fun s => str_in s (c_floatok c) in
   let ps := parse_path (c_path c) in
   let d := c_doc c in
+  let plain (r : res (node * option node)) : res (node * option node * obs14) :=
+    do x <- r; Ok (fst x, snd x, ObNone) in
+  let piped (k : node -> res (node * option node)) : res (node * option node * obs14) :=
+    do r <- walk None ps k d; Ok (fst r, flat_found (snd r), ObNone) in
   match c_op c with
-  | OLookup => do r <- walk None ps k_get d; Ok r
-  | OLookupCreate k => lookup_create k ps d
+  | OLookup => plain (do r <- walk None ps k_get d; Ok r)
+  | OLookupCreate k => plain (lookup_create k ps d)
   | OPut name v =>
-      do r <- walk (Some KMap) ps
+      plain (do r <- walk (Some KMap) ps
                 (fun m => do m' <- set_field nonstr name (Some v) false m;
                           Ok (m', set_ret nonstr name v m m')) d;
-      Ok (fst r, match snd r with Some (Some x) => Some x | _ => None end)
+      Ok (fst r, match snd r with Some (Some x) => Some x | _ => None end))
   | OPutNC name v =>
-      do r <- walk None ps
+      plain (do r <- walk None ps
                 (fun m => do m' <- set_field nonstr name (Some v) false m;
                           Ok (m', set_ret nonstr name v m m')) d;
-      Ok (fst r, match snd r with Some (Some x) => Some x | _ => None end)
+      Ok (fst r, match snd r with Some (Some x) => Some x | _ => None end))
   | OClear name =>
-      do r <- walk None ps
+      plain (do r <- walk None ps
                 (fun m => do m' <- clear_field name m;
                           Ok (m', match m with
                                   | Map kvs => find_field name kvs
                                   | _ => None
                                   end)) d;
-      Ok (fst r, match snd r with Some (Some x) => Some x | _ => None end)
+      Ok (fst r, match snd r with Some (Some x) => Some x | _ => None end))
   | OPutScalar v =>
-      do r <- walk (Some KScalar) ps
+      plain (do r <- walk (Some KScalar) ps
                 (fun x => do x' <- set_scalar (Some v) x; Ok (x', x')) d;
-      Ok r
+      Ok r)
   | OFieldSpec fs ck ct sv =>
-      do d' <- fs_apply ck ct (sv_fn nonstr sv) fs d; Ok (d', None)
+      plain (do d' <- fs_apply_raw ck ct (sv_fn nonstr sv) fs d; Ok (d', None))
   | OFsSlice l ck ct sv =>
-      do d' <- fsslice_apply ck ct (sv_fn nonstr sv) l d; Ok (d', None)
+      plain (do d' <- fsslice_apply_raw ck ct (sv_fn nonstr sv) l d; Ok (d', None))
+  | OElemMatch keys values any create => piped (elem_matcher nonstr keys values any create)
+  | OElemSet keys values element => piped (elem_setter nonstr keys values element)
+  | OElemAppend els => piped (elem_append els)
+  | OFieldMatch name value create => piped (field_matcher nonstr name value create)
+  | OFieldClear name ie => piped (field_clearer name ie)
+  | OTeeSet name v =>
+      do r <- walk None ps (k_tee (k_set_field nonstr name v)) d; Ok (fst r, snd r, ObNone)
+  | OSetLabel k v => plain (set_label nonstr k v d)
+  | OSetAnnotation k v => plain (do d' <- set_annotation nonstr k v d; Ok (d', None))
+  | OSetK8sMeta k v => plain (do d' <- set_k8s_meta nonstr k v d; Ok (d', None))
+  | OFields => read_at ps d (fun x => do l <- fields x; Ok (ObStrs l))
+  | OVisitFields => read_at ps d (fun x => do l <- visit_fields x; Ok (ObPairs l))
+  | OElements => read_at ps d (fun x => do l <- elements x; Ok (ObNodes l))
+  | OElementValues key => read_at ps d (fun x => do l <- element_values key x; Ok (ObStrs l))
+  | OMapFieldText name => read_at ps d (fun x => do s <- map_field_text name x; Ok (ObStr s))
+  | OField name => read_at ps d (fun x => Ok (ObNodes (match field name x with Some v => [v] | None => [] end)))
+  | OGetFieldValue p => do g <- get_field_value floatok p d; Ok (d, None, ObVal g)
+  | OGetString p => do s <- get_string floatok p d; Ok (d, None, ObStr s)
+  | OGetSlice p => do _ <- get_slice floatok p d; Ok (d, None, ObNone)
+  | ORawField k cn name =>
+      do r <- raw_field k cn name; Ok (d, None, ObNodes (match r with Some v => [v] | None => [] end))
+  | ORawMapFieldValue _ cn name =>
+      do r <- raw_map_field_value cn name; Ok (d, None, ObStr (match r with Some v => node_value v | None => "" end))
+  | ORawFields k cn => do l <- raw_fields k cn; Ok (d, None, ObStrs l)
+  | OPathSplit p => Ok (d, None, ObStrs (path_splitter p))
+  | OPathSplitC c p => Ok (d, None, ObStrs (path_splitter_c c p))
+  | OSmartSplit c p => Ok (d, None, ObStrs (smarter_path_splitter c p))
   end.
 
 Definition agree14 (c : case14) : bool :=
   match run14 c with
-  | Ok (d', f) =>
-      oclass_eqb (c_class c) COk && node_eqb d' (c_after c) && opt_node_eqb f (c_found c)
+  | Ok (d', f, o) =>
+      oclass_eqb (c_class c) COk && node_eqb d' (c_after c) && opt_node_eqb f (c_found c) &&
+      obs_eqb o (c_obs c)
   | r => oclass_eqb (c_class c) (class_of r)
   end.
 
